@@ -76,6 +76,14 @@ def build_pool(tmp):
     shutil.copy(os.path.join(os.path.dirname(tc.__file__), 'geoschemfiles', 'tracerinfo.dat'), tmp)
     shutil.copy(os.path.join(os.path.dirname(tc.__file__), 'geoschemfiles', 'diaginfo.dat'), tmp)
     add('punch', 'bpch', 'bpch', open(tc.geoschemfiles_paths['bpch'], 'rb').read())
+    # ICARTT with DOS line endings and with trailing blanks on the first line (both legitimate)
+    ict = open(tc.icarttfiles_paths['ffi1001'], 'rb').read()
+    add('ict_crlf', 'ffi1001', 'ffi1001', ict.replace(b'\r\n', b'\n').replace(b'\n', b'\r\n'))
+    first, rest = ict.split(b'\n', 1)
+    add('ict_blank', 'ffi1001', 'ffi1001', first.rstrip(b'\r') + b'  \n' + rest)
+    # files with a recognisable extension that no reader can open (detection fails part-way)
+    for name in ('cut.humidity', 'cut.nc', 'cut.uamiv'):
+        pool.append({'tag': name, 'fmt': 'none', 'path': put(name, b'abc'), 'ext': True, 'selfdesc': False, 'kw': {}})
     # a file no reader recognises (falls through to the last-resort reader or raises)
     add('junk', 'none', 'txt', b'this is not a model file\n' * 40, selfdesc=False)
     # one path whose CONTENT changes between opens
@@ -119,6 +127,36 @@ def do_open(entry, fmt=None):
         return {'reader': 'raise:' + type(e).__name__, 'dims': [], 'data': 0, 'nvars': 0}
 
 
+def events(pool):
+    """history alphabet: an auto-detecting open of every pool file, plus opens with an explicitly named
+    format (which must not influence later auto-detection either)"""
+    ev = [[i, None] for i in range(len(pool))]
+    for i, e in enumerate(pool):
+        if e['tag'] in ('avg.uamiv', 'nc3.nc', 'ict.ffi1001', 'io.ioapi', 'punch.bpch', 'hum.humidity',
+                        'kv.vertical_diffusivity'):
+            ev.append([i, e['fmt']])
+        if e['tag'] == 'kv_noext':
+            ev.append([i, 'humidity'])      # the indistinguishable sibling format, named explicitly
+        if e['tag'] == 'nc3_noext':
+            ev.append([i, 'netcdf'])
+    return ev
+
+
+REDUCED = ('avg.uamiv', 'kv.vertical_diffusivity', 'hum.humidity', 'ict.ffi1001', 'nc3.nc', 'io.ioapi', 'punch.bpch',
+           'ict_crlf.ffi1001', 'cut.humidity', 'cut.nc', 'cut.uamiv', 'kv_noext', 'nc3_noext', 'junk_noext',
+           'shared<-uamiv', 'shared<-nc3')
+REDUCED_EXPLICIT = ('avg.uamiv', 'ict.ffi1001', 'hum.humidity', 'kv_noext', 'nc3_noext')
+
+
+def reduced(ev, pool):
+    """the alphabet used at the deepest level: one representative per detection path"""
+    return [e for e in ev if pool[e[0]]['tag'] in (REDUCED if e[1] is None else REDUCED_EXPLICIT)]
+
+
+def htags(hist):
+    return [POOL[i]['tag'] + ('(format=%s)' % f if f else '') for i, f in hist]
+
+
 def registry_canon():
     from PseudoNetCDF import _getreader
     seen = []
@@ -133,8 +171,11 @@ def child(hist, order, wfd):
     out = {'hist': hist, 'probes': [], 'regs': []}
     try:
         c0, n0 = registry_canon()
-        for i in hist:
-            do_open(POOL[i])
+        for i, fmt in hist:
+            if fmt in ('humidity', 'vertical_diffusivity'):
+                do_open(dict(POOL[i], kw={'rows': 2, 'cols': 3}), fmt)
+            else:
+                do_open(POOL[i], fmt)
         out['reg_after_hist'] = registry_canon()
         out['reg_initial'] = (c0, n0)
         for i in order:
@@ -209,7 +250,9 @@ class Prop(core.Prop):
     ]
 
     def bounds(self, tier):
-        return {'depth': 2 if tier == 'quick' else 3, 'probe_orders': 2}
+        return {'depth': 2 if tier == 'quick' else 3, 'probe_orders': 2,
+                'alphabet': 'auto-detecting open of each pool file + 9 opens with an explicitly named format; '
+                            'full alphabet below the depth bound, 21-event reduced alphabet at the bound'}
 
     def replay(self, doc):
         case = doc['case']
@@ -234,8 +277,9 @@ def baseline_obs():
 
 def judge(hist, order, base, r):
     vs = []
-    tags = [POOL[i]['tag'] for i in hist]
-    scope = dict(hist_len=len(hist), hist_ext=bool(any(POOL[i]['ext'] for i in hist)))
+    tags = htags(hist)
+    scope = dict(hist_len=len(hist), hist_ext=bool(any(POOL[i]['ext'] for i, f in hist)),
+                 hist_explicit=bool(any(f for i, f in hist)))
     if r.get('error'):
         vs.append(viol('history-raises', ('history',), '%r after %r' % (r['error'], tags), **scope))
         return vs
@@ -306,8 +350,12 @@ def main(tier, seed, t0):
             cid += 1
         depth = prop.bounds(tier)['depth']
         hists = [[]]
+        ev = events(POOL)
         for L in range(1, depth + 1):
-            hists += [list(h) for h in itertools.product(range(n), repeat=L)]
+            # full alphabet below the depth bound, reduced alphabet (one representative per detection path) at it
+            alpha = ev if L < depth else reduced(ev, POOL)
+            hists += [[list(e) for e in h] for h in itertools.product(alpha, repeat=L)]
+        extra_cov = {'events': len(ev), 'reduced_events': len(reduced(ev, POOL)), 'pool_files': n}
         nch = core.NWORKERS * 8
         chunks = [hists[k::nch] for k in range(nch)]
         chunks = [c for c in chunks if c]
@@ -318,7 +366,8 @@ def main(tier, seed, t0):
         with ctx.Pool(core.NWORKERS, initializer=_winit, initargs=(tmp,)) as pool:
             for part in pool.imap_unordered(_wrun, chunks):
                 results.extend(part)
-        results.sort(key=lambda r: (len(r['hist']), r['hist'], r['probes'][0][0] if r.get('probes') else -1))
+        results.sort(key=lambda r: (len(r['hist']), [[i, f or ''] for i, f in r['hist']],
+                                    r['probes'][0][0] if r.get('probes') else -1))
         regstates = set()
         for r in results:
             order = [p[0] for p in r.get('probes', [])]
@@ -327,7 +376,7 @@ def main(tier, seed, t0):
                 regstates.add(tuple(r['reg_after_hist']))
                 regstates.add(tuple(r['reg_after_probes']))
             st = [h64('reg', tuple(r.get('reg_after_hist', ()))), h64('reg', tuple(r.get('reg_after_probes', ())))]
-            case = {'hist': r['hist'], 'order': order, 'hist_tags': [POOL[i]['tag'] for i in r['hist']]}
+            case = {'hist': r['hist'], 'order': order, 'hist_tags': htags(r['hist'])}
             core.fold(agg, (len(r['hist']) + 1, cid), case,
                       result('viol' if vs else 'ok-history', vs, st, len(r['hist']) + len(order),
                              h64('h', r['hist'], order[:1]) if r['hist'] else None,
